@@ -52,7 +52,7 @@ def undictify_all_complex_values(data: dict) -> dict:
         if isinstance(value, dict):
             data[key] = undictify_all_complex_values(value)
         if isinstance(value, list):
-            data[key] = [undictify_all_complex_values(v) for v in value]
+            data[key] = [undictify_all_complex_values(v) if isinstance(v, dict) else v for v in value]
     return undictify_complex_values(data)
 
 def serialize(data: T, format: str, dict_processor: Callable[[T], dict] = dictify_all_complex_values) -> str:
